@@ -61,6 +61,7 @@ func main() {
 
 	fs := newFailureSet()
 	ct := &counters{}
+	fs.onFull = func() { atomic.StoreInt32(&ct.aborted, 1) }
 	nw := vlib.Workers()
 	pool := make(chan *worker, nw)
 	var workers []*worker
@@ -84,6 +85,11 @@ func main() {
 			w := <-pool
 			defer func() { pool <- w }()
 			s := frontier[i]
+			if ct.isAborted() {
+				results[i].skipped = true
+				atomic.AddInt64(&skippedStates, 1)
+				return
+			}
 			if d <= backupDepth && os.Getenv("C15_NOBACKUP") == "" {
 				w.backupRestore(s, d <= gen2Depth)
 			}
@@ -104,6 +110,11 @@ func main() {
 			tiny := len(s[0]) <= 1 && len(s[1]) <= 1 && (r.Thorough() || len(s[0])+len(s[1]) <= 1)
 			sampleJ := (i * 7919) % len(ops)
 			for j, o := range ops {
+				if ct.isAborted() {
+					results[i].skipped = true
+					atomic.AddInt64(&skippedStates, 1)
+					return
+				}
 				useCB := o.kind == opBatch && (i+j)%createBatchEvery == 0 && os.Getenv("C15_NOCB") == ""
 				got, legal := w.step(s, o, useCB, fullSeen, tiny)
 				if j == sampleJ {
@@ -143,6 +154,11 @@ func main() {
 			fmt.Fprintf(os.Stderr, "depth %d: %d states, %d transitions so far, %d failures, %.1fs\n", depth, len(frontier), ct.transitions, len(fs.m), time.Since(t0).Seconds())
 		}
 		frontier = next
+		if ct.isAborted() {
+			r.Note("search stopped early at depth %d: the store had to be rebuilt %d times / %d failing cases recorded; it is grossly broken, the counts cover only what ran before", depth, ct.hardResets, len(fs.m))
+			depth++
+			break
+		}
 		if md := os.Getenv("C15_MAXDEPTH"); md != "" && fmt.Sprint(depth) == md {
 			break
 		}
@@ -198,8 +214,8 @@ func main() {
 	r.Set("backup_second_generation_cases", ct.backupGen2Cases)
 	r.Set("backup_depth", backupDepth)
 	r.Set("raw_dumps_of_closed_store", ct.rawDumps)
-	r.Set("reinstallations", ct.installs)
 	r.Set("hard_resets", ct.hardResets)
+	r.Set("stopped_early_store_grossly_broken", ct.isAborted())
 	r.Set("store_opens", ct.opens)
 	r.Set("batches_built_with_CreateBatch", ct.createBatchUsed)
 	r.Set("states_skipped_install_failed", skippedStates)
@@ -214,7 +230,13 @@ func main() {
 		"single writer at a time per store; concurrency of Add/Del/ExecuteBatch (writeMutex) is not explored here",
 		"values longer than 2 bytes, more than 3 values per key, batches longer than the bound, and random long histories are outside the bound",
 	}
-	if fs.dropped > 0 || skippedStates > 0 {
+	for _, knob := range []string{"C15_NOBACKUP", "C15_NOCB", "C15_MAXDEPTH"} { // development knobs: never a full run
+		if os.Getenv(knob) != "" {
+			r.Exhaustive = false
+			r.Note("development knob %s is set: this run does not cover the declared bound", knob)
+		}
+	}
+	if fs.dropped > 0 || skippedStates > 0 || ct.isAborted() {
 		r.Exhaustive = false
 	}
 	clean()
